@@ -102,6 +102,8 @@ type Interp struct {
 	usedStubs map[string]bool
 	capOblig, capExplore int64
 	unwindCut int
+	known map[*Term]bool
+	knownVal map[*Term]uint64
 	cuts map[string]bool
 	lockLog   func(name string, mu Value)
 }
@@ -251,7 +253,7 @@ type baseState struct {
 func (ex *Explorer) newBase(sol *Solver) (b *baseState) {
 	in := &Interp{ex: ex, prog: ex.prog, cfg: ex.cfg, tb: NewTB(), sol: sol,
 		sizes: types.SizesFor("gc", "amd64"), globals: map[*ssa.Global]*Value{}, initialised: map[*ssa.Package]bool{},
-		funcs: map[*ssa.Function]bool{}, trace: false, ghost: map[string]Value{}, usedStubs: map[string]bool{}, cuts: map[string]bool{}}
+		funcs: map[*ssa.Function]bool{}, trace: false, ghost: map[string]Value{}, usedStubs: map[string]bool{}, cuts: map[string]bool{}, known: map[*Term]bool{}, knownVal: map[*Term]uint64{}}
 	defer func() {
 		if r := recover(); r != nil {
 			ex.mu.Lock()
@@ -275,7 +277,7 @@ func (ex *Explorer) runPath(sol *Solver, base *baseState, prefix []Decision) (di
 	in := &Interp{ex: ex, prog: ex.prog, cfg: ex.cfg, tb: base.tb, sol: sol,
 		sizes: types.SizesFor("gc", "amd64"), globals: map[*ssa.Global]*Value{}, baseGlobals: base.globals, initialised: base.initialised,
 		globalCells: base.cells, globalMaps: base.maps,
-		decisions: prefix, funcs: map[*ssa.Function]bool{}, intMode: false, trace: ex.cfg.Trace, ghost: map[string]Value{}, usedStubs: map[string]bool{}, cuts: map[string]bool{}}
+		decisions: prefix, funcs: map[*ssa.Function]bool{}, intMode: false, trace: ex.cfg.Trace, ghost: map[string]Value{}, usedStubs: map[string]bool{}, cuts: map[string]bool{}, known: map[*Term]bool{}, knownVal: map[*Term]uint64{}}
 	base.tb.Mark()
 	defer func() {
 		base.tb.Rollback()
@@ -421,10 +423,31 @@ func (in *Interp) fork(alt Decision) {
 
 // decide resolves a branch condition, forking when both sides are feasible.
 func (in *Interp) decide(fr *frame, instr ssa.Instruction, c *Term) bool {
+	r := in.decide0(fr, instr, c)
+	if !c.IsConst() {
+		in.known[c] = r
+	}
+	return r
+}
+
+func (in *Interp) decide0(fr *frame, instr ssa.Instruction, c *Term) bool {
 	if c.IsConst() {
 		return c.C == 1
 	}
+	if v, ok := in.known[c]; ok {
+		return v
+	}
+	if c.Op == ONot {
+		if v, ok := in.known[c.A[0]]; ok {
+			return !v
+		}
+	}
 	in.symDecisions++
+	defer func() {
+		if r := recover(); r != nil {
+			panic(r)
+		}
+	}()
 	if fr != nil && instr != nil {
 		if fr.symCount == nil {
 			fr.symCount = map[ssa.Instruction]int{}
@@ -507,6 +530,15 @@ func (in *Interp) chooseValue(t *Term, what string) uint64 {
 	if t.IsConst() {
 		return t.C
 	}
+	if v, ok := in.knownVal[t]; ok {
+		return v
+	}
+	v := in.chooseValue0(t, what)
+	in.knownVal[t] = v
+	return v
+}
+
+func (in *Interp) chooseValue0(t *Term, what string) uint64 {
 	if t.S.K != KBV || t.S.W > 64 {
 		panic(engineAbort{"chooseValue on non-BV64 term (" + what + ")"})
 	}
@@ -516,7 +548,9 @@ func (in *Interp) chooseValue(t *Term, what string) uint64 {
 		d := in.decisions[in.dpos]
 		if d.Kind == 'v' {
 			in.dpos++
-			in.addPC(tb.Eq(t, tb.BVConst(int(t.S.W), d.Val)))
+			if !d.Forced {
+				in.addPC(tb.Eq(t, tb.BVConst(int(t.S.W), d.Val)))
+			}
 			return d.Val
 		}
 		if d.Kind != 'x' || in.dpos != len(in.decisions)-1 {
@@ -539,9 +573,21 @@ func (in *Interp) chooseValue(t *Term, what string) uint64 {
 		panic(pathEnd{"infeasible"})
 	}
 	v := in.sol.GetValues([]*Term{t})[0].Uint64()
+	// is v the only remaining value? then no alternative needs exploring
+	in.sol.Assert(tb.Not(tb.Eq(t, tb.BVConst(int(t.S.W), v))))
+	more := in.sol.Check()
 	in.sol.Pop()
 	if len(excl) >= in.cfg.Unwind*8+64 {
 		panic(boundHit{fmt.Sprintf("more than %d distinct values for %s", len(excl), what)})
+	}
+	if more == Unsat {
+		if len(excl) == 0 {
+			in.record(Decision{Kind: 'v', Val: v, Forced: true})
+			return v
+		}
+		in.record(Decision{Kind: 'v', Val: v})
+		in.addPC(tb.Eq(t, tb.BVConst(int(t.S.W), v)))
+		return v
 	}
 	nx := make([]uint64, len(excl)+1)
 	copy(nx, excl)
